@@ -63,7 +63,7 @@ def required_counters(tier):
         "kind.anonymous_axis": 100,
         "kind.user_category": 30,
         "kind.union_arraytype": 50,
-        "originals_rechecked": 100,
+        "originals_rechecked": 100, "sibling_groups": 20,
         "route.cloudpickle": 200,
         "route.pickle": 400,
         "route.copy": 100,
@@ -270,6 +270,39 @@ def run_shard(rec, seed, shard, tier):
                 rec.count("roundtrips.same_process")
                 if h1 != h0:
                     rec.violation("meaning-changed", dict(case, where="same-process"), f"{route} copy of {expr} accepts differently: {first_diff(v0, v1)}", mechanism=mech(expr, route, "same", "differs"))
+            # related annotations loaded together and kept alive: same outer category, same flattened array
+            # type and shape string, different inner dtypes (or flat vs nested) - they must stay distinct
+            if isinstance(expr[2], list) and k % 2 == 0:
+                sibs = [expr]
+                inner = expr[2]
+                for icat in rng.sample(CATS, 3):
+                    if icat != inner[1]:
+                        sibs.append([expr[0], expr[1], [inner[0], icat, inner[2], inner[3]], expr[3]])
+                flat_inner = inner
+                while isinstance(flat_inner[2], list):
+                    flat_inner = flat_inner[2]
+                if not isinstance(inner[2], list):
+                    sibs.append(["ann", expr[1], inner[2], (expr[3] + " " + inner[3]).strip()])
+                built = [(e, try_build(e)) for e in sibs]
+                built = [(e, a) for e, a in built if a is not None]
+                if len(built) >= 2:
+                    rec.count("sibling_groups")
+                    origs = [vec_hash(a) for _, a in built]
+                    for route in ("pickle4", "cloudpickle"):
+                        try:
+                            blob = dumps(route, {i: a for i, (_, a) in enumerate(built)})
+                            loaded = pickle.loads(blob)
+                            alive = [pickle.loads(dumps(route, a)) for _, a in built]  # one by one, all kept alive
+                        except Exception as e:  # noqa
+                            rec.violation("roundtrip-raises", {"exprs": [e_ for e_, _ in built], "route": route}, f"{route} of a group raised {type(e).__name__}: {e}", mechanism=f"{route.rstrip('2345')}-group-raises")
+                            continue
+                        for i, (e_, a) in enumerate(built):
+                            for how, cp in (("one-dict", loaded[i]), ("kept-alive", alive[i])):
+                                hh, vv = vec_hash(cp)
+                                rec.case((e_, route, "group", how), nontrivial=True)
+                                if hh != origs[i][0]:
+                                    rec.violation("meaning-changed", {"exprs": [x for x, _ in built], "index": i, "route": route, "how": how}, f"{route}: annotation #{i} {e_} loaded together with its siblings ({how}) accepts differently: {first_diff(origs[i][1], vv)}", mechanism=f"{route.rstrip('2345')}-siblings-collide")
+                                    break
             # serialising / loading must not change the original
             h2, v2 = vec_hash(ann)
             rec.count("originals_rechecked")
